@@ -123,7 +123,17 @@ def apply_call(optic, op, a):
             optic.set_aperture("EPD", 1.0)
         optic.scale_system(a["v"])
     elif op == "insert_surface":
-        optic.add_surface(index=a["i"] - 1, is_stop=bool(a["stop"]))
+        if a["i"] % 2 == 0:
+            # the other public way in: a ready-made Surface object (its own flag says whether it is the stop)
+            from optiland.coordinate_system import CoordinateSystem
+            from optiland.geometries import Plane
+            from optiland.materials import IdealMaterial
+            from optiland.surfaces.standard_surface import Surface
+            air = IdealMaterial(n=1.0, k=0.0)
+            sf = Surface(Plane(CoordinateSystem(z=0.0)), air, air, is_stop=bool(a["stop"]))
+            optic.add_surface(new_surface=sf, index=a["i"] - 1)
+        else:
+            optic.add_surface(index=a["i"] - 1, is_stop=bool(a["stop"]))
     elif op == "remove_surface":
         optic.surface_group.remove_surface(a["i"] - 1)
     elif op == "reset":
